@@ -156,7 +156,7 @@ OptionCases ==
             {Case(b, "component", FALSE, S) : b \in AllBackends, S \in Singles}
        \cup {Case(NativeOf(S), l, FALSE, S) : l \in {"global", "stage"}, S \in Singles}
        \cup {Case(NativeOf(S), "component", TRUE, S) : S \in Singles}
-       \cup {Case(b, "component", FALSE, S) : b \in AllBackends, S \in PairsOver(PrimaryAtoms, TRUE)}
+       \cup {Case(NativeOf(S), "component", FALSE, S) : S \in PairsOver(PrimaryAtoms, TRUE)}     \* thorough: x every backend
        \cup {Case(b, "component", i, {}) : b \in AllBackends, i \in BOOLEAN}
     ELSE
             {Case(b, l, i, S) : b \in AllBackends, l \in {"component", "global", "stage"}, i \in BOOLEAN, S \in Singles}
@@ -215,7 +215,8 @@ NameCases ==
               S \in {T \in OneOrTwo(EnvNamePool) : \A m, n \in T : (EnvLower(m) = EnvLower(n)) => m = n}}
     \cup {[Neutral EXCEPT !.kind = "envvar", !.envs = {[name |-> "env1", vars |-> S, cls |-> "dollar"]}] : S \in OneOrTwo(EnvVarNamePool)}
     \cup {[Neutral EXCEPT !.kind = "comp", !.comps = S] : S \in OneOrTwo(CompNamePool)}
-    \cup UNION {{[Neutral EXCEPT !.kind = "var", !.vars = {[scope |-> f[n], name |-> n, cls |-> "punct", val |-> f[n]] : n \in S}] : f \in [S -> VarPlaces]} :
+    \cup UNION {{[Neutral EXCEPT !.kind = "var", !.vars = {[scope |-> f[n], name |-> n, cls |-> "punct", val |-> f[n]] : n \in S}] :
+                    f \in {g \in [S -> VarPlaces] : Tier = "thorough" \/ Cardinality({g[n] : n \in S}) = 1 \/ "stage1" \in {g[n] : n \in S}}} :
                    S \in OneOrTwo(VarNamePool)}
     \cup {[Neutral EXCEPT !.kind = "out", !.output = {[name |-> n, datain |-> "abs", desc |-> "plain", type |-> "csv", stages |-> "absent"] : n \in S}] :
               S \in OneOrTwo(OutNamePool)}
